@@ -621,6 +621,65 @@ theorem reduced_palette_lossless (i j : Img) (h : reducedPalette i false = some 
     | rgba => simp [hc] at h
   · simp [hd] at h
 
+/-- **Reordering the palette is lossless for the whole image** (valid input: at most 256 entries and
+    every index inside the palette): every remapped index points at the colour the old index had. -/
+theorem sorted_palette_lossless (i j : Img) (palette : List Rgba) (hc : i.ihdr.ct = .indexed palette)
+    (hpl : palette.length ≤ 256) (hidx : ∀ b ∈ i.data, b.toNat < palette.length)
+    (h : sortedPalette i = some j) : samePicture i j := by
+  unfold sortedPalette at h
+  by_cases hd : i.ihdr.depth = 8
+  · simp only [hd, ne_eq, not_true_eq_false, if_false, hc] at h
+    split at h
+    · cases h
+    · cases hm : mostPopularEdgeColor palette.length i with
+      | none => simp [hm] at h
+      | some keepFirst =>
+        simp only [hm] at h
+        split at h
+        · cases h
+        · simp only [Option.some.injEq] at h
+          subst h
+          refine ⟨rfl, rfl, rfl, ?_⟩
+          have hib : i.bppBytes = 1 := by
+            simp [Img.bppBytes, Img.bytesPerChannel, Img.channelsPerPixel, hd, hc, ColorType.channels]
+          generalize hfin : sortedFinal (enumeratedPalette palette) keepFirst = final
+          have hmemf : ∀ x, x ∈ final ↔ x ∈ enumeratedPalette palette := by
+            intro x; rw [← hfin]; exact mem_sortedFinal _ _ x
+          have hlenf : final.length = palette.length := by
+            rw [← hfin, length_sortedFinal, length_enumeratedPalette]
+          have hjb : Img.bppBytes ⟨⟨i.ihdr.width, i.ihdr.height, .indexed (final.map (·.2)), 8, i.ihdr.interlaced⟩,
+              i.data.map fun b => UInt8.ofNat (((final.map (·.1)).idxOf? b.toNat).getD 0)⟩ = 1 := rfl
+          simp only [pixelColours, storagePixels, hib, chunksExact_one, List.map_map, hc]
+          rw [hjb, chunksExact_one, List.map_map, List.map_map]
+          apply List.map_congr_left
+          intro b hb
+          have hbl := hidx b hb
+          -- the old index occurs in the remapping
+          have hin : (b.toNat, palette[b.toNat]) ∈ final :=
+            (hmemf _).mpr ((mem_enumerated palette _ _).mpr (List.getElem?_eq_getElem hbl))
+          have hinr : b.toNat ∈ final.map (·.1) := List.mem_map.mpr ⟨_, hin, rfl⟩
+          cases hix : (final.map (·.1)).idxOf? b.toNat with
+          | none => exact absurd hinr (idxOf?_none _ _ hix)
+          | some k =>
+            have hk := idxOf?_some _ _ _ hix
+            rw [List.getElem?_map] at hk
+            cases hfk : final[k]? with
+            | none => rw [hfk] at hk; cases hk
+            | some e =>
+              rw [hfk] at hk
+              simp only [Option.map_some, Option.some.injEq] at hk
+              have hklt : k < final.length := lt_of_getElem?_some _ _ _ hfk
+              have hen : e ∈ enumeratedPalette palette := (hmemf e).mp (List.mem_of_getElem? hfk)
+              have hcol : palette[b.toNat]? = some e.2 := by
+                have := (mem_enumerated palette e.1 e.2).mp hen
+                rw [hk] at this; exact this
+              simp only [Function.comp, samplesOf, hd, if_neg (by decide : ¬ ((8 : Nat) = 16)),
+                List.map_cons, List.map_nil, colourOf_indexed_getD]
+              rw [hix, Option.getD_some, ofNat_toNat_lt k (by omega), getD_of_getElem? _ _ _ _ hcol]
+              have : (final.map (·.2))[k]? = some e.2 := by rw [List.getElem?_map, hfk]; rfl
+              rw [getD_of_getElem? _ _ _ _ this]
+  · simp [hd] at h
+
 /-- Non-vacuity: a concrete 16-bit keyed pixel -/
 example : colourOf (.gray (some 0x3434)) 16 [0x34 * 256 + 0x34] = ⟨0x3434, 0x3434, 0x3434, 0⟩ ∧
           colourOf (trns16to8 (.gray (some 0x3434)) exactKey) 8 [0x34] = ⟨0x3434, 0x3434, 0x3434, 0⟩ := by decide
